@@ -147,7 +147,6 @@ def perpSq (v : List Float) (d : Nat) : M Float := do
 
 /-- `vectors.displacement_until_new_norm_sq_component_positive` -/
 def dispUntilPos (v : List Float) (nsq : Float) (d : Nat) : M Float := do
-  note (comp v d) 0.0
   pyAssert (comp v d > 0.0)
   let p ← perpSq v d
   note nsq p
@@ -156,7 +155,6 @@ def dispUntilPos (v : List Float) (nsq : Float) (d : Nat) : M Float := do
 
 /-- `vectors.displacement_until_new_norm_sq_component_negative` -/
 def dispUntilNeg (v : List Float) (nsq : Float) (d : Nat) : M Float := do
-  note (comp v d) 0.0
   pyAssert (comp v d <= 0.0)
   let p ← perpSq v d
   note nsq p
